@@ -471,6 +471,9 @@ func runParent(id, tier string, seed uint64, replay string) int {
 	if dead > 0 {
 		inconclusiveRun = true
 		reason = fmt.Sprintf("%d shard(s) died: %s", dead, strings.Join(deadNotes, ","))
+	} else if replay == "" && len(merged.Samples) == 0 {
+		inconclusiveRun = true
+		reason = "the run recorded no sample of what it explored"
 	} else if replay == "" && merged.Evaluations < int64(floor) {
 		inconclusiveRun = true
 		reason = fmt.Sprintf("observed only %d evaluations, floor is %d", merged.Evaluations, floor)
